@@ -505,6 +505,26 @@ def symbolic_comprehension(I, e, env, module):
     if len(e.generators) != 1:
         return None
     g = e.generators[0]
+    fnq = env.lookup("__fn__").qualname if env.has("__fn__") else "?"
+    cspec = (getattr(I.ctx, "comp_loop_specs", {}) or {}).get(fnq)
+    if cspec is not None and isinstance(e, (ast.ListComp, ast.GeneratorExp)) and not g.ifs:
+        # comprehension whose element expression has effects (the callee's contract mutates state): executed as the loop
+        #   __comp_out = []; for <target> in <iter>: __comp_out.append(<elt>)
+        # under the loop rule, with the invariant supplied by the contract
+        tmp = "__comp_out"
+        env.assign(tmp, MList(V.VList(V.VNil)))
+        loop = ast.For(target=g.target, iter=g.iter, orelse=[], lineno=getattr(e, "lineno", 0), col_offset=0,
+                       body=[ast.Expr(value=ast.Call(func=ast.Attribute(value=ast.Name(id=tmp, ctx=ast.Load()), attr="append", ctx=ast.Load()),
+                                                     args=[e.elt], keywords=[]))])
+        ast.fix_missing_locations(loop)
+        saved = getattr(I.ctx, "loop_specs", {})
+        I.ctx.loop_specs = dict(saved)
+        I.ctx.loop_specs[fnq] = cspec
+        try:
+            I.exec_stmt(loop, env, module)
+        finally:
+            I.ctx.loop_specs = saved
+        return env.lookup(tmp)
     it = I.eval(g.iter, env, module)
     xs = _seq_term(I, it, getattr(e, "lineno", None), "comprehension")
     if xs is None:
@@ -794,7 +814,7 @@ def symbolic_for(I, st, it, env, module):
     specs = getattr(I.ctx, "loop_specs", {}) or {}
     spec = specs.get((fnq, st.lineno)) or specs.get(fnq)
     label = f"inv@{fnq.split('.')[-1]}:{st.lineno}"
-    mod = sorted(_mutated_paths(st.body) - {(n,) for n in _target_names(st.target)})
+    mod = sorted((_mutated_paths(st.body) | set(getattr(spec, "extra_mutated", ()) or ())) - {(n,) for n in _target_names(st.target)})
 
     def state():
         out = {}
